@@ -108,9 +108,9 @@ func (d zzTData) zzProto() *onnx.TensorProto {
 	return tp
 }
 
-func zzBuildModel(g zzGraph, inits []zzTData) *onnx.ModelProto {
+func zzBuildModel(g zzGraph, inits []zzTData, defaulted ...string) *onnx.ModelProto {
 	gp := &onnx.GraphProto{}
-	for _, spec := range g.inputs {
+	for _, spec := range append(append([]string(nil), g.inputs...), defaulted...) {
 		// declared with its rank and symbolic dimensions only: any extents are accepted, a missing tensor or
 		// another rank is refused by the signature check (before any node runs)
 		name, shape := zzParseTensorSpec(spec)
@@ -163,7 +163,13 @@ func H_C02(v *zzverif.T) {
 	load := func() *Model {
 		var m *Model
 		var err error
-		p := v.Try(func() { m, err = NewModel(zzBuildModel(g, inits)) })
+		// "defaulted": initializers that are ALSO declared as graph inputs - the initializer is the default, a
+		// caller may supply a tensor of its own for that name in any one Run
+		var defaulted []string
+		if v.Has("defaulted") {
+			defaulted = v.CStrs("defaulted")
+		}
+		p := v.Try(func() { m, err = NewModel(zzBuildModel(g, inits, defaulted...)) })
 		v.Assert("C02.model-loads", !p && err == nil && m != nil)
 		if p || err != nil {
 			return nil
@@ -230,6 +236,37 @@ func H_C02(v *zzverif.T) {
 	}
 	checkFrame("first", listA, snapsA)
 	v.Assert("C02.first-run-succeeds", r1.err == nil)
+
+	// a Run in which the caller overrides a defaulted input, then one that leaves it to the default again
+	if v.Has("defaulted") && len(v.CStrs("defaulted")) > 0 && r1.err == nil {
+		var ov []zzTData
+		for _, spec := range v.CStrs("defaulted") {
+			ov = append(ov, zzParseSpec(v, spec, "ov_"))
+		}
+		tO, listO, snapsO := mkInputs(ov)
+		for k, t := range tA {
+			tO[k] = t
+		}
+		rO, ok := run("override", m, tO)
+		if !ok {
+			return
+		}
+		checkFrame("override", listO, snapsO)
+		checkFrame("override", listA, snapsA)
+		if fresh := load(); fresh != nil {
+			rf, ok := run("fresh-override", fresh, tO)
+			if !ok {
+				return
+			}
+			same("C02.run-with-an-overridden-default-equals-fresh-model", rO, rf)
+		}
+		rD, ok := run("default-again", m, tA)
+		if !ok {
+			return
+		}
+		checkFrame("default-again", listA, snapsA)
+		same("C02.default-applies-again-after-an-override", rD, r1)
+	}
 
 	// a failing call in between: one declared input missing
 	if len(inA) > 0 {
